@@ -108,6 +108,7 @@ func (s *SubgraphRequestSingleFlight) GetOrCreateItem(fetchItem *FetchItem, inpu
 func (s *SubgraphRequestSingleFlight) Finish(item *SingleFlightItem) {
 	shard := s.shardFor(item.SFKey)
 	shard.items.Delete(item.SFKey)
+	verifYield("c11.subgraph.finish.before_close")
 	close(item.loaded)
 
 	sizeValue, ok := shard.sizes.Load(item.FetchKey)
